@@ -94,7 +94,7 @@ def run(tier):
         c["family"] = "MC_C17"
     extra = [c for c in families.all_programs(chk, depth_values=0, depth_verdict=0, only=("MC_C01", "MC_C05")) if c["kind"] not in ("call", "method", "ctor") or c["expect"] == "accept"]
     if tier == "quick":
-        cases = cases[::3]
+        cases = [c for c in cases if c["kind"] == "operator-names"] + [c for c in cases if c["kind"] != "operator-names"][::3]
         extra = extra[::4]
     for c in extra:
         c["id"] = len(cases)
